@@ -235,21 +235,22 @@ func (s *Session) Regenerate() error {
 //
 //	err := s.Reset()
 func (s *Session) Reset() error {
+	s.mu.Lock()
+	defer s.mu.Unlock()
+
+	// Delete old id from storage first: if that fails the session stays what it was,
+	// including its absolute deadline (which lives in the data)
+	if err := s.config.Storage.Delete(s.id); err != nil {
+		return err
+	}
+
 	// Reset local data
 	if s.data != nil {
 		s.data.Reset()
 	}
 
-	s.mu.Lock()
-	defer s.mu.Unlock()
-
 	// Reset expiration
 	s.idleTimeout = 0
-
-	// Delete old id from storage
-	if err := s.config.Storage.Delete(s.id); err != nil {
-		return err
-	}
 
 	// Expire session
 	s.delSession()
